@@ -100,8 +100,16 @@ class Ctx:
         self._seen_ok[k].update({'rule': rule, 'construct': construct, 'location': loc, 'what': what,
                                  'discharged': True})
 
+    # who-may-write rules: inside routines that only a state-restoring entry point reaches they cannot be decided
+    # (a correct restore necessarily rewrites recorded state from the saved data) - noted, not reported
+    WHO_MAY_WRITE = ('R02.9', 'R02.3', 'R03.1', 'R03.3', 'R03.6', 'R04.6', 'R06.5', 'R06.8', 'R06.6', 'R11.5')
+
     def fail(self, rule: str, construct: str, loc: str, message: str, key: Optional[str] = None,
              detail: Optional[dict] = None):
+        if rule in self.WHO_MAY_WRITE and construct in self._restore_only_shorts() and \
+                not (detail or {}).get('decidable'):
+            self.note(f'{rule}: not decided for the state-restoring routine {construct} ({loc}): {message[:120]}')
+            return
         k = key or f'{rule}::{construct}'
         if (k, loc, message) in self._seen_fail:
             return
@@ -109,6 +117,20 @@ class Ctx:
         self.obligations.append({'rule': rule, 'construct': construct, 'location': loc, 'what': message,
                                  'discharged': False, 'key': k})
         self.findings.append(Finding(rule, construct, loc, message, k, detail))
+
+    def _restore_only_shorts(self):
+        got = getattr(self, '_ro_shorts', None)
+        if got is None:
+            try:
+                from .rules import common as C
+                roles = C.roles_of(self)
+                got = {self.ix.funcs[q].short for q in roles.restore_only() if q in self.ix.funcs}
+            except Exception:
+                got = set()
+            self._ro_shorts = got
+            if got:
+                self.analysed['state_restoring_routines'] = sorted(got)
+        return got
 
     def check(self, cond: bool, rule: str, construct: str, loc: str, ok_what: str, fail_msg: str,
               key: Optional[str] = None, detail: Optional[dict] = None) -> bool:
